@@ -99,6 +99,22 @@ pub fn run() -> Report {
             let all = chain.mblocks();
             // every other case spread over two blk files (height order leaves a file and returns to the adjacent block)
             let mut world = World::laid_out(btc, &chain.blocks, c.base, if c.n >= 10_000 { 0 } else { i });
+            let mut stale_seed: Option<&str> = None;
+            // a once-active, reorganised-away block (fully validated, with data) at exactly the height --end names: which chain is
+            // the active one is decided by the real tip, not by what is left after the range was cut
+            if let Some(e) = c.end {
+                if c.n < 10_000 && e >= c.base + 1 && e < c.base + c.n as u64 - 1 && i % 3 != 1 {
+                    let h = (e - c.base) as usize;
+                    let parent = chain.blocks[h - 1].hash();
+                    let txs = vec![refmodel::chain::coinbase(e, 0xbad, vec![refmodel::chain::pay(251, 7)])];
+                    for nonce in 0..2u32 {
+                        let b = refmodel::ser::Block::build(1, parent, 1_650_000_000, 0x1d00ffff, nonce, txs.clone());
+                        world.add_block_status(7, e, &b, refmodel::world::ACTIVE);
+                    }
+                    stale_seed = Some(["1", "2", "6", "9", "17"][i % 5]);
+                    acc.count("validated-stale-siblings-at-the-end-height", 1);
+                }
+            }
             // every third case: a never-connected record whose key agrees with an active block's hash in its first / last bytes
             if c.n >= 3 && c.n < 10_000 && i % 3 == 1 {
                 let mid = c.n / 2;
@@ -111,6 +127,9 @@ pub fn run() -> Report {
             let s = c.start.unwrap_or(0);
             let e = c.end.map(|e| e.min(tip)).unwrap_or(tip);
             let mut spec = RunSpec::new("bitcoin", c.cb).range(c.start, c.end);
+            if let Some(seed) = stale_seed {
+                spec.env.push(("VERIF_DETRAND".into(), seed.to_string()));
+            }
             // time is an environment answer: every fourth case runs on a virtual monotonic clock that advances 4 s per query
             // (the driver's "every 10 seconds" status branch is crossed every few blocks), every fourth on one that stands still
             match i % 4 {
